@@ -272,18 +272,6 @@ def setup_hook():
     write_known_gaps()
 
 
-if __name__ == "__main__":
-    import sys
-    import time
-    import pickle
-    t = time.time()
-    o = observe(sys.argv[1] if len(sys.argv) > 1 else "quick")
-    print("cells", o.cells, "programs run", o.programs_run, "bad", len(o.bad), "time %.1f" % (time.time() - t))
-    pickle.dump(o, open("/root/work/tables/tmp/obs.pkl", "wb"))
-    write_obs(o)
-    write_known_gaps()
-
-
 # --------------------------------------------------------------------------- gap rows (computed by Coq)
 
 def mask_name(p):
@@ -368,3 +356,14 @@ def describe(row):
     if multi:
         where += (" and " if where else "") + "%d two-scope annotations (%s%s)" % (len(multi), ",".join(multi[:3]), ",..." if len(multi) > 3 else "")
     return "%s %s in [%s]: %s" % (n, a, where, WHAT.get(k, k))
+
+
+if __name__ == "__main__":
+    # python3 lib/tables_util.py [quick|thorough]: run the observation and write coq/Gen/Obs*.v, KnownGaps.v
+    import sys
+    import time
+    t = time.time()
+    o = observe(sys.argv[1] if len(sys.argv) > 1 else "quick")
+    print("cells", o.cells, "programs run", o.programs_run, "bad", len(o.bad), "time %.1f" % (time.time() - t))
+    write_obs(o)
+    write_known_gaps()
